@@ -304,6 +304,7 @@ def run(ctx):
         # ---- R04.6: documented conditions that must raise do raise (positional limit in every mode; syntax check for every token ahead of `--`)
         ctx.rule("R04.6", "the documented rejections `more positionals than accepted` and `malformed dash token ahead of --` are in force on every path (R12.3, R12.6 re-evaluated)")
         share(ctx, "C12", ("R12.3", "R12.6"), "R04.6", "rejection obligations shared with C12", 4)
+        share(ctx, "C02", ("R02.4",), "R04.5", "token-syntax obligations shared with C02 (a well-formed --name=value token is never rejected for its value)", 1)
     ctx.assume("beyond R04.5 the accept/reject boundary itself (error raised *exactly* under the documented conditions) is not decided")
 
 
